@@ -127,6 +127,16 @@ def standin(tier, seed):
             V.add("fixrot:angular_momentum_left", case, f"|L| after adjust_momenta = {np.abs(L).max():.3e} (before {scale:.3e})")
         if np.abs(p.sum(axis=0) - p0.sum(axis=0)).max() > 1e-9 * max(1.0, np.abs(p0).max()):
             V.add("fixrot:linear_momentum_changed", case, f"{np.abs(p.sum(axis=0) - p0.sum(axis=0)).max():.3e}")
+        # the same constraint object again after the atoms moved (positions are updated in place by ase)
+        fr = FixRot()
+        fr.adjust_momenta(a, p0.copy())
+        a.positions[:] = a.positions + g.normal(size=(n, 3))
+        p2 = p0.copy()
+        fr.adjust_momenta(a, p2)
+        r2 = a.positions - a.get_center_of_mass()
+        L2 = np.cross(r2, p2).sum(axis=0)
+        if np.abs(L2).max() > 1e-8 * max(1.0, np.abs(np.cross(r2, p0).sum(axis=0)).max()):
+            V.add("fixrot:angular_momentum_left_on_a_second_call_after_the_atoms_moved", case, f"|L| = {np.abs(L2).max():.3e}")
         # through the driver: FixRot as a constraint of a Hamiltonian run
         a.set_constraint([FixRot()])
         a.calc = pair_calculator()
